@@ -544,3 +544,78 @@ func TestLeastBytes(t *testing.T) {
 		ev.Sample(c)
 	})
 }
+
+// ---------------------------------------------------------------------------
+// Hash / ReferenceHash with a user-supplied Hasher: the hash value is chosen
+// directly, so that the sign handling is exercised at its boundaries
+// (0x7fffffff, 0x80000000, 0xffffffff ...), which no key reaches by chance.
+
+type fixedHasher struct{ v uint32 }
+
+func (f *fixedHasher) Write(p []byte) (int, error) { return len(p), nil }
+func (f *fixedHasher) Sum(b []byte) []byte {
+	return append(b, byte(f.v>>24), byte(f.v>>16), byte(f.v>>8), byte(f.v))
+}
+func (f *fixedHasher) Reset()         {}
+func (f *fixedHasher) Size() int      { return 4 }
+func (f *fixedHasher) BlockSize() int { return 1 }
+func (f *fixedHasher) Sum32() uint32  { return f.v }
+
+type customHashCase struct {
+	Reference bool   `json:"reference"`
+	Hash      uint32 `json:"hash"`
+	N         int    `json:"n"`
+}
+
+func init() {
+	ev.Register("custom-hash", func(tb ev.TB, c customHashCase) { checkCustomHash(tb, c) })
+}
+
+func checkCustomHash(tb ev.TB, c customHashCase) {
+	key := []byte("any key")
+	var got, want int
+	name := "Hash"
+	if c.Reference {
+		name = "ReferenceHash"
+		got = (&kafka.ReferenceHash{Hasher: &fixedHasher{c.Hash}}).Balance(kafka.Message{Key: key}, parts(c.N)...)
+		want = int((int32(c.Hash) & 0x7fffffff) % int32(c.N))
+	} else {
+		got = (&kafka.Hash{Hasher: &fixedHasher{c.Hash}}).Balance(kafka.Message{Key: key}, parts(c.N)...)
+		p := int32(c.Hash) % int32(c.N)
+		if p < 0 {
+			p = -p
+		}
+		want = int(p)
+	}
+	if got < 0 || got >= c.N {
+		ev.Fail(tb, "custom-hash", "custom/"+name+"/not-offered", c, "%s with a Hasher returning %#x chose partition %d of %d offered (0..%d)", name, c.Hash, got, c.N, c.N-1)
+		return
+	}
+	if got != want {
+		ev.Fail(tb, "custom-hash", "custom/"+name, c, "%s with a Hasher returning %#x chose partition %d of %d, the Sarama partitioner with that hasher chooses %d", name, c.Hash, got, c.N, want)
+	}
+}
+
+func TestCustomHasher(t *testing.T) {
+	boundaries := []uint32{0, 1, 2, 3, 0x7ffffffe, 0x7fffffff, 0x80000000, 0x80000001, 0x80000002, 0xfffffffe, 0xffffffff, 0xaaaaaaaa, 0x55555555, 0xc0000000, 0x40000000}
+	maxN := ev.Scale(64, 512)
+	var cases int64
+	for _, ref := range []bool{false, true} {
+		for _, h := range boundaries {
+			for n := 1; n <= maxN; n++ {
+				checkCustomHash(t, customHashCase{ref, h, n})
+				cases++
+			}
+		}
+	}
+	ev.Bulk(cases, "custom_hasher_boundaries")
+	rapid.Check(t, func(t *rapid.T) {
+		c := customHashCase{Reference: rapid.Bool().Draw(t, "reference"), Hash: rapid.Uint32().Draw(t, "hash"), N: rapid.IntRange(1, 100000).Draw(t, "n")}
+		if rapid.IntRange(0, 3).Draw(t, "nearSign") == 0 {
+			c.Hash = 0x80000000 + uint32(rapid.IntRange(-70000, 70000).Draw(t, "delta"))
+		}
+		checkCustomHash(t, c)
+		ev.Case(fmt.Sprintf("custom ref=%v h=%#x n=%d", c.Reference, c.Hash, c.N), true, "custom_hasher")
+		ev.Sample(c)
+	})
+}
